@@ -94,13 +94,22 @@ func itemId(n int) uuid.UUID {
 
 // dataset with one partition per remote worker (+ optionally a local one)
 func (w *world) dataset(withLocal, colocated bool) *storage.Dataset {
+	n := 0
+	if withLocal {
+		n = 1
+	}
+	return w.datasetN(n, colocated)
+}
+
+// datasetN: one partition per remote worker, nLocal partitions on the asked node itself
+func (w *world) datasetN(nLocal int, colocated bool) *storage.Dataset {
 	meta := pb.Dataset{Id: uuid.NewV4().Bytes(), Dimension: 3, Space: pb.Space_Euclidean, ReplicationFactor: 1}
 	names := []string{"w1", "w2", "w3"}
 	for i, name := range names {
 		meta.Partitions = append(meta.Partitions, &pb.Partition{Id: pid(i + 1).Bytes(), NodeIds: []uint64{w.nodes[name].Id}})
 	}
-	if withLocal {
-		meta.Partitions = append(meta.Partitions, &pb.Partition{Id: pid(9).Bytes(), NodeIds: []uint64{1}})
+	for j := 0; j < nLocal; j++ {
+		meta.Partitions = append(meta.Partitions, &pb.Partition{Id: pid(9 + j).Bytes(), NodeIds: []uint64{1}})
 	}
 	if colocated {
 		// a second partition on w1's node: one worker, two partitions in its request
@@ -293,6 +302,12 @@ func runScheds(mode string, scheds []sched, out string, seed int64, stride int) 
 	names := []string{"w1", "w2", "w3"}
 	dsets := map[bool]*storage.Dataset{false: w.dataset(false, false), true: w.dataset(true, false)}
 	colo := w.dataset(false, true)
+	local3 := w.datasetN(3, false)
+	for j := 0; j < 3; j++ {
+		for x := 0; x <= j; x++ {
+			local3.VerifPartitionIndex(3+j).Insert(itemId(200+10*j+x), vec(float32(x)), index.Metadata{"k": "v"}, 0)
+		}
+	}
 	// contents: worker j's partition holds scores j and 10+j (as distances from the zero query)
 	parts := map[string][]int{}
 	for j, name := range names {
@@ -310,6 +325,35 @@ func runScheds(mode string, scheds []sched, out string, seed int64, stride int) 
 		localParts = append(localParts, int(hx.NewSpace("euclidean").Distance(vec(0), vec(float32(sc)))*4+0.5))
 	}
 	hid := 0
+	if mode == "size" {
+		// the serving side of the remote lookups: a node answers only for partitions it hosts (an answer
+		// for a partition hosted elsewhere - empty or stale - would silently enter somebody's sum)
+		for _, d := range []struct {
+			name string
+			ds   *storage.Dataset
+			loc  int
+		}{{"remote3", dsets[false], 0}, {"remote3+local1", dsets[true], 1}, {"remote3+local3", local3, 3}} {
+			for j := 0; j < 3+d.loc; j++ {
+				p := pid(j + 1)
+				if j >= 3 {
+					p = pid(9 + j - 3)
+				}
+				hosted := 0
+				if j >= 3 {
+					hosted = 1
+				}
+				ln, by, err := d.ds.PartitionInfo(context.Background(), p)
+				ev := event{Ev: "pinfo", Hid: hid, O: map[string]string{}, S: []string{d.name}, K: hosted, Parts: map[string][]int{}, Ret: "ok", Res: [][]int{{int(ln), int(by)}}}
+				if err != nil {
+					ev.Ret, ev.Err, ev.Res = "err", err.Error(), [][]int{}
+				}
+				if hosted == 1 {
+					ev.Parts["local"] = []int{d.ds.VerifPartitionIndex(j).Len(), int(d.ds.VerifPartitionIndex(j).BytesSize())}
+				}
+				enc.Encode(ev)
+			}
+		}
+	}
 	for si, s := range scheds {
 		if stride > 1 && (si+int(seed))%stride != 0 {
 			continue
@@ -317,6 +361,11 @@ func runScheds(mode string, scheds []sched, out string, seed int64, stride int) 
 		hid++
 		withLocal := mode == "size" && rng.Intn(2) == 0
 		ds := dsets[withLocal]
+		// as many local partitions as remote ones: the local answers alone must not satisfy the collector
+		manyLocal := mode == "size" && !withLocal && rng.Intn(2) == 0
+		if manyLocal {
+			ds = local3
+		}
 		k := []int{1, 2, 3, 8}[rng.Intn(4)]
 		colocated := mode == "search" && rng.Intn(3) == 0
 		if colocated {
@@ -365,6 +414,12 @@ func runScheds(mode string, scheds []sched, out string, seed int64, stride int) 
 			})
 			if withLocal {
 				ev.Parts["local"] = []int{dsets[true].VerifPartitionIndex(3).Len(), int(dsets[true].VerifPartitionIndex(3).BytesSize())}
+			}
+			if manyLocal {
+				ev.Local = 3
+				for j := 0; j < 3; j++ {
+					ev.Parts[fmt.Sprintf("local%d", j+1)] = []int{local3.VerifPartitionIndex(3 + j).Len(), int(local3.VerifPartitionIndex(3 + j).BytesSize())}
+				}
 			}
 			ev.Calls = map[string][]string{}
 			for name, n := range w.nodes {
